@@ -43,14 +43,27 @@ fn attr_value(seed: u32) -> Vec<u8> {
     let b = pseudo_bytes(seed as u64, 12);
     match seed % 9 {
         0 => vec![1, 3, b'a', b'b', b'c'],
-        1 => vec![2, [1u8, 2, 4][(seed as usize / 9) % 3], b[0], b[1], b[2], b[3]].into_iter().take(2 + [1usize, 2, 4][(seed as usize / 9) % 3]).collect(),
+        1 => vec![
+            2,
+            [1u8, 2, 4][(seed as usize / 9) % 3],
+            b[0],
+            b[1],
+            b[2],
+            b[3],
+        ]
+        .into_iter()
+        .take(2 + [1usize, 2, 4][(seed as usize / 9) % 3])
+        .collect(),
         2 => vec![3, 2, b[0], b[1]],
         3 => vec![4, 4, b[0], b[1], b[2], b[3]],
         4 => vec![4, 8, b[0], b[1], b[2], b[3], b[4], b[5], b[6], b[7]],
         5 => vec![5, 3, b[0], b[1], b[2]],
         6 => vec![7, 6, b[0], b[1], b[2], b[3], b[4], b[5]],
         7 => vec![254, 4, 1, 0, 2, 1],
-        _ => vec![b[0], b[1] % 8, b[2], b[3], b[4], b[5], b[6], b[7], b[8]].into_iter().take(2 + (b[1] % 8) as usize).collect(),
+        _ => vec![b[0], b[1] % 8, b[2], b[3], b[4], b[5], b[6], b[7], b[8]]
+            .into_iter()
+            .take(2 + (b[1] % 8) as usize)
+            .collect(),
     }
 }
 
@@ -58,11 +71,17 @@ fn attr_value(seed: u32) -> Vec<u8> {
 pub fn build_header(h: &HdrSpec, function: u8, budget: usize) -> Vec<u8> {
     let mut o = vec![h.g, h.v, h.q];
     let lay = layout(h.g, h.v);
-    let data = |n: usize, per: usize| -> Vec<u8> { pseudo_bytes(h.seed as u64 | 1 << 40, (n * per).min(budget)) };
+    let data = |n: usize, per: usize| -> Vec<u8> {
+        pseudo_bytes(h.seed as u64 | 1 << 40, (n * per).min(budget))
+    };
     match h.q {
         0x06 => {}
         0x00 | 0x01 => {
-            let (a, b) = if h.q == 0 { (h.a & 0xFF, h.b & 0xFF) } else { (h.a, h.b) };
+            let (a, b) = if h.q == 0 {
+                (h.a & 0xFF, h.b & 0xFF)
+            } else {
+                (h.a, h.b)
+            };
             if h.q == 0 {
                 o.push(a as u8);
                 o.push(b as u8);
@@ -83,7 +102,11 @@ pub fn build_header(h: &HdrSpec, function: u8, budget: usize) -> Vec<u8> {
             }
         }
         0x07 | 0x08 => {
-            let n = if h.q == 0x07 { (h.a & 0xFF) as usize } else { h.a as usize };
+            let n = if h.q == 0x07 {
+                (h.a & 0xFF) as usize
+            } else {
+                h.a as usize
+            };
             if h.q == 0x07 {
                 o.push(h.a as u8);
             } else {
@@ -96,7 +119,11 @@ pub fn build_header(h: &HdrSpec, function: u8, budget: usize) -> Vec<u8> {
             }
         }
         0x17 | 0x28 => {
-            let n = if h.q == 0x17 { (h.a & 0xFF) as usize } else { h.a as usize };
+            let n = if h.q == 0x17 {
+                (h.a & 0xFF) as usize
+            } else {
+                h.a as usize
+            };
             let prefix = if h.q == 0x17 { 1 } else { 2 };
             if h.q == 0x17 {
                 o.push(h.a as u8);
@@ -116,18 +143,35 @@ pub fn build_header(h: &HdrSpec, function: u8, budget: usize) -> Vec<u8> {
         0x5B => {
             // free format (group 70): a body of 16-bit fields drawn from boundary values (offsets, sizes, block numbers
             // of the file objects) followed by a few octets of text; the declared length is mostly the real one
-            o.push(if h.seed % 11 == 0 { (h.a & 0xFF) as u8 } else { 1 });
-            let fields = [0u16, 1, 2, 8, 12, 16, 20, 26, 0x00FF, 0x0100, 0x7FFF, 0x8000, 0xFFF0, 0xFFF3, 0xFFF4, 0xFFF8, 0xFFFE, 0xFFFF];
+            o.push(if h.seed % 11 == 0 {
+                (h.a & 0xFF) as u8
+            } else {
+                1
+            });
+            let fields = [
+                0u16, 1, 2, 8, 12, 16, 20, 26, 0x00FF, 0x0100, 0x7FFF, 0x8000, 0xFFF0, 0xFFF3,
+                0xFFF4, 0xFFF8, 0xFFFE, 0xFFFF,
+            ];
             let nf = 1 + (h.b as usize % 12);
             let mut body = vec![];
             let mut x = h.seed as usize;
             for _ in 0..nf {
-                x = x.wrapping_mul(6364136223846793005usize).wrapping_add(1442695040888963407usize);
-                let v = if (x >> 20) % 4 == 0 { (x >> 32) as u16 } else { fields[(x >> 24) % fields.len()] };
+                x = x
+                    .wrapping_mul(6364136223846793005usize)
+                    .wrapping_add(1442695040888963407usize);
+                let v = if (x >> 20) % 4 == 0 {
+                    (x >> 32) as u16
+                } else {
+                    fields[(x >> 24) % fields.len()]
+                };
                 body.extend_from_slice(&v.to_le_bytes());
             }
             body.extend(data((h.seed as usize >> 5) % 9, 1));
-            let declared = if h.seed % 13 == 0 { h.a } else { body.len() as u16 };
+            let declared = if h.seed % 13 == 0 {
+                h.a
+            } else {
+                body.len() as u16
+            };
             o.extend_from_slice(&declared.to_le_bytes());
             o.extend(body);
         }
@@ -223,20 +267,37 @@ pub fn header_strategy() -> impl Strategy<Value = HdrSpec> {
     ];
     (gv_s, q, num.clone(), num, any::<u32>()).prop_map(|((g, v), q, a, b, seed)| {
         // group 70 lives on the free-format qualifier, device attributes on single-index ranges
-        let q = if g == 70 && seed % 4 != 0 { 0x5B } else if g == 0 && seed % 3 != 0 { (seed % 2) as u8 } else { q };
+        let q = if g == 70 && seed % 4 != 0 {
+            0x5B
+        } else if g == 0 && seed % 3 != 0 {
+            (seed % 2) as u8
+        } else {
+            q
+        };
         // ranges mostly well ordered and short, sometimes at the very end of the index space
         let (a, b) = if g == 0 && seed % 5 != 0 {
             (a % 3, a % 3)
         } else {
             (a, b)
         };
-        let (a, b) = if g == 0 && seed % 5 != 0 { (a, b) } else { match seed % 8 {
-            0 | 1 | 2 | 3 => (a.min(b), a.min(b).saturating_add(seed as u16 % 6)),
-            4 => (65535 - (seed as u16 % 4), 65535),
-            5 => (255 - (seed as u16 % 4), 255),
-            _ => (a, b),
-        } };
-        HdrSpec { g, v, q, a, b, seed }
+        let (a, b) = if g == 0 && seed % 5 != 0 {
+            (a, b)
+        } else {
+            match seed % 8 {
+                0 | 1 | 2 | 3 => (a.min(b), a.min(b).saturating_add(seed as u16 % 6)),
+                4 => (65535 - (seed as u16 % 4), 65535),
+                5 => (255 - (seed as u16 % 4), 255),
+                _ => (a, b),
+            }
+        };
+        HdrSpec {
+            g,
+            v,
+            q,
+            a,
+            b,
+            seed,
+        }
     })
 }
 
@@ -258,5 +319,86 @@ pub fn frag_strategy() -> impl Strategy<Value = FragSpec> {
         proptest::collection::vec(header_strategy(), 0..5),
         prop_oneof![3 => Just(vec![]), 2 => proptest::collection::vec(mutation, 1..3)],
     )
-        .prop_map(|(ctrl, func, iin, headers, muts)| FragSpec { ctrl, func, iin, headers, muts })
+        .prop_map(|(ctrl, func, iin, headers, muts)| FragSpec {
+            ctrl,
+            func,
+            iin,
+            headers,
+            muts,
+        })
+}
+
+/// headers whose qualifier suits their object layout (so that most of them are accepted), with boundary counts/ranges
+pub fn valid_header_strategy() -> impl Strategy<Value = HdrSpec> {
+    let gv = known_gv();
+    let n = gv.len();
+    let num = prop_oneof![
+        3 => prop_oneof![Just(0u16), Just(1), Just(2), Just(255), Just(256), Just(65535), Just(65534), Just(7), Just(8), Just(9)],
+        3 => 0u16..20,
+        1 => any::<u16>(),
+    ];
+    ((0..n).prop_map(move |i| gv[i]), any::<bool>(), num.clone(), num, any::<u32>()).prop_map(|((g, v), wide, a, b, seed)| {
+        use crate::verif::wire::app::is_event_group;
+        let lay = layout(g, v);
+        let q = match lay {
+            Some(Layout::FreeFormat) => 0x5B,
+            Some(Layout::Attr) => 0x00,
+            Some(Layout::NoObjects) => [0x06u8, 0x06, 0x07, 0x00][(seed % 4) as usize],
+            _ if matches!(g, 50 | 51 | 52) => {
+                if wide {
+                    0x08
+                } else {
+                    0x07
+                }
+            }
+            _ if is_event_group(g) || matches!(g, 12 | 41 | 34 | 13 | 43) => {
+                if wide {
+                    0x28
+                } else {
+                    0x17
+                }
+            }
+            _ => {
+                if wide {
+                    0x01
+                } else {
+                    0x00
+                }
+            }
+        };
+        // ranges: short, or ending at the top of the index space; counts: small or boundary
+        let (a, b) = match (q, seed % 6) {
+            (0x00, 0) => (255 - (seed as u16 >> 8) % 5, 255),
+            (0x01, 0) => (65535 - (seed as u16 >> 8) % 5, 65535),
+            (0x00 | 0x01, _) => {
+                let lo = if q == 0 { a & 0xFF } else { a };
+                let hi = lo.saturating_add((seed >> 8) as u16 % 40);
+                (lo, if q == 0 { hi.min(255) } else { hi })
+            }
+            (_, 0) => ([0u16, 1, 255, 256][(seed as usize >> 8) % 4], b),
+            _ => (a % 12, b),
+        };
+        let (a, b) = if matches!(lay, Some(Layout::Attr)) { (a % 3, a % 3) } else { (a, b) };
+        HdrSpec { g, v, q, a, b, seed }
+    })
+}
+
+/// mostly-valid fragments: response or request function codes that admit object data, 1-4 suitable headers, light mutation
+pub fn valid_frag_strategy() -> impl Strategy<Value = FragSpec> {
+    let function = prop_oneof![
+        5 => Just(129u8), 2 => Just(130u8), 2 => Just(2u8), 1 => Just(3u8), 1 => Just(4u8), 1 => Just(5u8), 1 => Just(1u8), 1 => Just(11u8), 1 => Just(25u8), 1 => Just(31u8),
+    ];
+    let mutation = prop_oneof![
+        2 => any::<u16>().prop_map(Mutation::Truncate),
+        1 => proptest::collection::vec(any::<u8>(), 1..4).prop_map(Mutation::Extend),
+        1 => (any::<u16>(), any::<u8>()).prop_map(|(k, b)| Mutation::Flip(k, b)),
+        1 => (any::<u16>(), prop_oneof![Just(0u8), Just(1), Just(255), any::<u8>()]).prop_map(|(k, v)| Mutation::Set(k, v)),
+    ];
+    (function, any::<(u8, u8)>(), proptest::collection::vec(valid_header_strategy(), 1..5), prop_oneof![4 => Just(vec![]), 1 => proptest::collection::vec(mutation, 1..2)]).prop_map(|(func, iin, headers, muts)| FragSpec {
+        ctrl: if func == 130 { 0xF0 } else { 0xC0 },
+        func,
+        iin,
+        headers,
+        muts,
+    })
 }
